@@ -24,7 +24,10 @@ static struct iv_avl_tree tree;
 static int cmp(const struct iv_avl_node *a, const struct iv_avl_node *b)
 {
 	long ka = ((const struct n *)a)->key, kb = ((const struct n *)b)->key;
-	return (ka < kb) ? -1 : (ka > kb);
+	/* the contract is "negative / zero / positive" (strcmp-like, key differences, ...): magnitudes other than 1 are ordinary */
+	if (ka < kb) return -(int)(1 + (kb - ka) % 7);
+	if (ka > kb) return (int)(1 + (ka - kb) % 7);
+	return 0;
 }
 
 static struct n **slot(long k)
